@@ -208,8 +208,20 @@ WritePost(s, cv, c, o) ==
              \* number v, exactly when |v| < 2^24; known under the file's own type as the dyadic <<v, 0>> (needs dyadic logging)
              i2f  == c.T \in {"s", "i"} /\ Sub(s.fmt) \in {S_FLOAT, S_DOUBLE} /\ "dy" \in DOMAIN c /\ c.dy /\ "sif" \in DOMAIN s /\ s.sif = 0
                      /\ \A i \in 1..Len(c.v) : c.v[i] > -16777216 /\ c.v[i] < 16777216
-             tag  == IF Lossless(c.T, Sub(s.fmt), c.v) THEN c.T ELSE IF i2f THEN (IF Sub(s.fmt) = S_FLOAT THEN "f" ELSE "d") ELSE "-"
-             wv   == IF i2f /\ ~Lossless(c.T, Sub(s.fmt), c.v) THEN [i \in 1..Len(c.v) |-> DyNorm(c.v[i], 0)] ELSE c.v
+             \* floating point numbers written into an integer-lossless encoding with normalisation off for the caller's type: an integer
+             \* v inside the range passes through unscaled (C02), i.e. the decoder's left-justified value becomes v * 2^(32-u), u as for
+             \* reads (UnnormWidth); v has to be a multiple of 2^(u-w) where the decoder's unit is finer than the stored width w
+             uw   == UnnormWidth(s.fmt)
+             iw   == IntWidth(Sub(s.fmt))
+             f2i  == c.T \in {"f", "d"} /\ iw > 0 /\ uw >= iw /\ "dy" \in DOMAIN c /\ c.dy
+                     /\ (IF c.T = "f" THEN s.nf = 0 ELSE s.nd = 0)
+                     /\ \A i \in 1..Len(c.v) : /\ Len(c.v[i]) = 2 /\ c.v[i][2] >= 0 /\ DyBits(c.v[i]) <= uw - 1
+                                               /\ (c.v[i][1] * Pow2(c.v[i][2])) % Pow2(uw - iw) = 0
+             tag  == IF Lossless(c.T, Sub(s.fmt), c.v) THEN c.T ELSE IF i2f THEN (IF Sub(s.fmt) = S_FLOAT THEN "f" ELSE "d") ELSE IF f2i THEN "i" ELSE "-"
+             wv   == IF Lossless(c.T, Sub(s.fmt), c.v) THEN c.v
+                     ELSE IF i2f THEN [i \in 1..Len(c.v) |-> DyNorm(c.v[i], 0)]
+                     ELSE IF f2i THEN [i \in 1..Len(c.v) |-> c.v[i][1] * Pow2(c.v[i][2]) * Pow2(32 - uw)]
+                     ELSE c.v
              over == s.wpos < s.frames
          IN [s  |-> [Adopt(s, o) EXCEPT !.hw = TRUE],
              cv |-> [cv EXCEPT !.val = Splice(cv.val, base, Take(wv, wi), 0),
